@@ -809,6 +809,10 @@ func RunSchedManyKey(rep *Report, pool *Pool, names []string, bound int, deadlin
 			rep.AddSample(map[string]any{"scenario": name, "choices": res.Sample.Choices, "deviations": res.Sample.Trace, "ops": res.Sample.Ops})
 		}
 	})
+	if len(perScenario) < len(names) {
+		rep.Exhaustive = false
+		rep.Notes = append(rep.Notes, fmt.Sprintf("%d of %d scenarios were not started before the internal deadline", len(names)-len(perScenario), len(names)))
+	}
 	prev, _ := rep.Extra[key].(map[string]any)
 	if prev == nil {
 		prev = map[string]any{"scenarios": map[string]any{}}
